@@ -320,6 +320,16 @@ func (w *world) build(withMutation bool) (*graphql.Schema, error) {
 			simrt.Yield()
 			return w.live.mutate(), nil
 		})
+		s.Mutation().FieldFunc("fail", func(ctx context.Context, args struct{ Kind int64 }) (string, error) {
+			simrt.Yield()
+			switch args.Kind {
+			case 1:
+				return "", errors.New("SECRET-mutation-failed")
+			case 2:
+				return "", graphql.NewSafeError("safe-mutation-failed")
+			}
+			panic("SECRET-mutation-panicked")
+		})
 	}
 	q := s.Query()
 	q.FieldFunc("as", func(ctx context.Context) ([]*A, error) {
